@@ -45,8 +45,11 @@ if os.environ.get("NGS_VERIF_MONITORS") == "1" and os.environ.get("NGS_VERIF_CHI
 
             def store_chunk(self, buf, key, chunk_coords, *a, **k):
                 res = orig(self, buf, key, chunk_coords, *a, **k)
-                if len(_written) < 200000:
-                    _written.append([key, [int(c) for c in chunk_coords]])
+                try:    # the monitor must never break the call it observes
+                    if len(_written) < 200000:
+                        _written.append([key, [int(c) for c in chunk_coords]])
+                except Exception:
+                    pass
                 return res
             cls.store_chunk = store_chunk
         _wrap_store(file_accessor.FileAccessor)
